@@ -115,7 +115,7 @@ def triggers(kinds):
     return sorted(t)
 
 
-def tok_trace(tid, text, hist=None):
+def tok_trace(tid, text, hist=None, fallback=False):
     kinds, piece, npieces, nsplit = real_pieces(text)
     tr = {'id': tid, 'mode': 'tok', 'kinds': kinds, 'piece': piece, 'npieces': npieces,
           'nsplit': nsplit, 'annotated': False, 'fin': [False] * len(kinds),
@@ -125,8 +125,35 @@ def tok_trace(tid, text, hist=None):
         # the sequence of significant tokens
         sig_abs = [h for h in hist if h['k'] not in GAPK]
         sig_idx = [i for i, k in enumerate(kinds) if k not in GAPK]
-        if [h['k'] for h in sig_abs] != [kinds[i] for i in sig_idx]:
-            return None   # spelling did not lex to the intended kinds
+        # a run of `other` tokens (a qualified name a.b is three of them) counts as one: they are neutral for the splitter
+        def squeeze(ks):
+            out = []
+            for k in ks:
+                if not (k == 'other' and out and out[-1] == 'other'):
+                    out.append(k)
+            return out
+        exact = [h['k'] for h in sig_abs] == [kinds[i] for i in sig_idx]
+        if not exact and squeeze([h['k'] for h in sig_abs]) == squeeze([kinds[i] for i in sig_idx]):
+            semi_abs = [h for h in sig_abs if h['k'] == 'semi']
+            semi_idx = [i for i in sig_idx if kinds[i] == 'semi']
+            for h, i in zip(semi_abs, semi_idx):
+                tr['fin'][i] = bool(h['fin'])
+            tr['annotated'] = True
+            return tr
+        if not exact:
+            # the spelling did not lex to the intended kinds.  The annotation that matters (which `;` are final) can
+            # still be carried over through the semicolons alone when there are as many `;` tokens as intended: then
+            # the text is judged anyway - a lexer that fuses or re-types two of the intended tokens must not make the
+            # script invisible.  (Other counts: a `;` ended up inside another token; nothing can be said.)
+            semi_abs = [h for h in sig_abs if h['k'] == 'semi']
+            semi_idx = [i for i in sig_idx if kinds[i] == 'semi']
+            if not fallback or len(semi_abs) != len(semi_idx):
+                return None
+            for h, i in zip(semi_abs, semi_idx):
+                tr['fin'][i] = bool(h['fin'])
+            tr['annotated'] = True
+            tr['fallback'] = True
+            return tr
         for h, i in zip(sig_abs, sig_idx):
             tr['fin'][i] = bool(h['fin'])
         tr['annotated'] = True
